@@ -141,7 +141,7 @@ macro_rules! c02_increment_accuracy {
             vassert!((inc as f64 + 1.0) * n >= full * (1.0 - 4.76837158203125e-7), "C02/increment/late-only-by-counter-resolution");
             vcover!(special == 0 && k == 20480, "witness: 20 s");
             vcover!(special == 1, "witness: 1 ms");
-            vcover!(n < 1.0, "witness: phase shorter than one sample");
+            vcover!(special == 2, "witness: 1.5 ms");
         }
     };
 }
